@@ -782,3 +782,32 @@ M('c11-splitter-escaped-quote-toggles', 'C11', 'R18', MT, SPLOOP, """        if 
 M('c11-splitter-escape-outside-quotes', 'C11', 'R18', MT, "        elif quoted and char == '\\\\':\n", "        elif char == '\\\\':\n")
 # negative controls (exit 0): the arms reordered / nested (`elif quoted: if char == '\\\\'`); `not ('"' in header)`; `for char in header`
 # with an own counter; the fast path removed altogether
+
+# ---- wave 10: R19 negotiation reads the CURRENT Accept header (seeded change s10-c11-1)
+RQ = 'falcon/request.py'
+ARQ = 'falcon/asgi/request.py'
+_ACC_W = ("        try:\n            return self.env['HTTP_ACCEPT'] or '*/*'\n        except KeyError:\n            return '*/*'\n")
+_ACC_A = ("        try:\n            return self._asgi_headers[b'accept'].decode('latin1') or '*/*'\n        except KeyError:\n            return '*/*'\n")
+# the seed: a `_cached_accept` slot filled on the first access
+M2('c11-accept-memoised-on-first-access', 'C11', 'R19', [
+    {'file': RQ, 'old': "        '_cached_access_route',\n", 'new': "        '_cached_accept',\n        '_cached_access_route',\n"},
+    {'file': RQ, 'old': "        self._cached_access_route: Optional[List[str]] = None\n",
+     'new': "        self._cached_accept: Optional[str] = None\n        self._cached_access_route: Optional[List[str]] = None\n"},
+    {'file': RQ, 'old': _ACC_W, 'new': "        if self._cached_accept is None:\n            try:\n                self._cached_accept = self.env['HTTP_ACCEPT'] or '*/*'\n"
+     "            except KeyError:\n                self._cached_accept = '*/*'\n\n        return self._cached_accept\n"}])
+# variant: a snapshot taken by the constructor (the name does not say "cached")
+M2('c11-accept-snapshot-in-constructor', 'C11', 'R19', [
+    {'file': RQ, 'old': "        self._cached_access_route: Optional[List[str]] = None\n",
+     'new': "        self._accept = env.get('HTTP_ACCEPT') or '*/*'\n        self._cached_access_route: Optional[List[str]] = None\n"},
+    {'file': RQ, 'old': _ACC_W, 'new': "        return self._accept\n"}])
+# variant: the ASGI twin memoises through a class-level default
+M2('c11-asgi-accept-memoised', 'C11', 'R19', [
+    {'file': ARQ, 'old': "    _cached_access_route: Optional[List[str]] = None\n",
+     'new': "    _cached_accept: Optional[str] = None\n    _cached_access_route: Optional[List[str]] = None\n"},
+    {'file': ARQ, 'old': _ACC_A, 'new': "        if self._cached_accept is None:\n            try:\n"
+     "                self._cached_accept = self._asgi_headers[b'accept'].decode('latin1') or '*/*'\n"
+     "            except KeyError:\n                self._cached_accept = '*/*'\n\n        return self._cached_accept\n"}])
+# variant: the header is read through the memoised header copy (`self.headers` -> _cached_headers)
+M('c11-accept-from-memoised-headers-copy', 'C11', 'R19', RQ, _ACC_W, "        return self.headers.get('ACCEPT') or '*/*'\n", also=('C06',))
+# negative controls (exit 0): `self.get_header('Accept') or '*/*'`; `self.env.get('HTTP_ACCEPT') or '*/*'`; the value through a local;
+# (exit 2, not 1) a new `_cached_netloc` slot that negotiation does not read
